@@ -275,6 +275,8 @@ def run(ctx):
                           timeout=600, metadir=_metadir(ctx, "pin"), env=_jenv(ctx))
         f_e1 = ex.submit(_pipe, ctx, "MC_TeehistTicks.tla", "Exp_ticks_%s.cfg" % tier, exe, mis1, 1500)
         f_e2 = ex.submit(_pipe, ctx, "MC_TeehistBuf.tla", "Exp_buf_%s.cfg" % tier, exe, mis2, 1500)
+        mis3 = os.path.join(wd, "mis-ticks2.ndjson")
+        f_e3 = None if quick else ex.submit(_pipe, ctx, "MC_TeehistTicks.tla", "Exp_ticks_thorough2.cfg", exe, mis3, 1500)
         f_drv = ex.submit(core.run_harness, [exe, "drive", str(ctx.seed), tier, os.path.join(wd, "trace")],
                           timeout=1200)
         # ---- direction B
@@ -309,8 +311,11 @@ def run(ctx):
             raise core.ToolError("spec self-test failed: the model of the unfixed reader is not rejected (%s)" % pin)
 
         # ---- direction A
-        for label, fut, mis in (("tick machine export (Exp_ticks_%s)" % tier, f_e1, mis1),
-                                ("fragmentation schedules export (Exp_buf_%s)" % tier, f_e2, mis2)):
+        exports = [("tick machine export (Exp_ticks_%s)" % tier, f_e1, mis1),
+                   ("fragmentation schedules export (Exp_buf_%s)" % tier, f_e2, mis2)]
+        if f_e3 is not None:
+            exports.append(("tick machine export (Exp_ticks_thorough2)", f_e3, mis3))
+        for label, fut, mis in exports:
             tres, summ, hang = fut.result()
             _handle_export(ctx, label, tres, summ, hang, mis)
 
